@@ -737,7 +737,12 @@ func recordViolation(vs map[string]*variant, prop, tier string, seed uint64, vv 
 	// shrink
 	args := []string{"shrink", "-sim", prop, "-tape", tmp, "-vclass", vv.vclass, "-budget", "600"}
 	if vv.cls.DeathIsViolation {
-		args = append(args, "-isolate", "-budget", "80", "-timeout", strconv.Itoa(max(vv.cls.RunTimeoutSec, 20)))
+		if vv.vclass == sim.HangClass {
+			// every candidate that still hangs costs its whole watchdog
+			args = append(args, "-isolate", "-budget", "8", "-timeout", "10")
+		} else {
+			args = append(args, "-isolate", "-budget", "80", "-timeout", strconv.Itoa(max(vv.cls.RunTimeoutSec, 20)))
+		}
 	}
 	cmd := exec.Command(v.bin, args...)
 	cmd.Env = append(os.Environ(), "VERIF_SCRATCH="+scratch)
@@ -759,7 +764,11 @@ func recordViolation(vs map[string]*variant, prop, tier string, seed uint64, vv 
 	// final execution from the minimised tape in a fresh process: take its trace
 	cmd = exec.Command(v.bin, "exec", "-sim", prop, "-tape", tmp)
 	cmd.Env = append(os.Environ(), "VERIF_SCRATCH="+scratch)
-	outb, _ = runWithTimeout(cmd, time.Duration(max(vv.cls.RunTimeoutSec, 60))*time.Second)
+	finalTO := time.Duration(max(vv.cls.RunTimeoutSec, 60)) * time.Second
+	if vv.vclass == sim.HangClass {
+		finalTO = 10 * time.Second
+	}
+	outb, _ = runWithTimeout(cmd, finalTO)
 	for _, ln := range strings.Split(outb, "\n") {
 		if strings.HasPrefix(ln, "@@ ") {
 			var l sim.Line
@@ -768,6 +777,11 @@ func recordViolation(vs map[string]*variant, prop, tier string, seed uint64, vv 
 				rp.Sample = l.Sample
 				rp.Violation.Detail = l.Detail
 			}
+		}
+	}
+	if vv.death {
+		if i := strings.Index(outb, "##STDERR##"); i >= 0 {
+			rp.Trace = append(rp.Trace, "stderr of the replayed run: "+firstLines(outb[i+10:], 12))
 		}
 	}
 	b, _ = json.MarshalIndent(rp, "", " ")
